@@ -17,7 +17,7 @@
        MaxDraws, FinishOK       reaching the maximum draws; after finish() the last frame shows max/max, 100 %
        AnsiLine                 ANSI (also through a section): the screen is what was there before plus exactly the
                                 latest frame (nothing after clear()) - no residue of longer earlier frames
-       PlainOwnLine             plain: no control codes; every frame stands on its own line
+       PlainOwnLine             plain: no control codes; every frame stands on its own line (empty lines aside)
        QuietNothing             quiet: nothing reaches the stream
    A-layer (from progress_bar.py): `bar` mirrors the attributes _max, _step, _step_width, _last_write_time (as time
        since), _last_messages_length, _write_count, _format (fmtset/nomax/flc) and the operations are transcribed:
@@ -75,15 +75,20 @@ StepOK == AllFrames(LAMBDA f : f.ok => /\ f.cur = last.progress /\ f.cur >= 0
                                        /\ last.maxsteps > 0 => f.cur <= last.maxsteps)
 PercentOK == AllFrames(LAMBDA f : (f.ok /\ f.haspct /\ last.maxsteps > 0) => f.pct = (100 * f.cur) \div last.maxsteps)
 ThrottleOK == (ByAdvance /\ Frames # <<>> /\ last.progress # last.maxsteps /\ last.gap >= 0) => last.gap >= cfg.mingap
-MaxDraws == (ByAdvance /\ ~Quiet /\ last.exc = "" /\ last.maxsteps > 0 /\ last.progress = last.maxsteps) => Frames # <<>>
+\* "reaching": the call changed the step or the maximum and left step = maximum
+MaxDraws == (ByAdvance /\ ~Quiet /\ last.exc = "" /\ last.maxsteps > 0 /\ last.progress = last.maxsteps
+             /\ (last.pprog # last.progress \/ last.pmax # last.maxsteps)) => Frames # <<>>
 FinishOK == (last.op = "finish" /\ ~Quiet /\ last.exc = "" /\ last.maxsteps > 0) =>
               /\ IsFrame(shown) /\ shown.cur = last.maxsteps
               /\ shown.hasmax => shown.max = last.maxsteps
               /\ shown.haspct => shown.pct = 100
 ShownLines == IF IsFrame(shown) THEN shown.lines ELSE <<>>
 AnsiLine == Overwrites => Screen(term) = Visible(FoldAll(cfg.pre \o ShownLines, cfg.w))
+\* blank rows are not counted: the statement asks that every frame stands on a line of its own, not that no empty
+\* line separates frames (the pinned code starts with a new line when the first frame is drawn at a step > 0)
+NonBlank(rows) == SelectSeq(rows, LAMBDA r : r # <<>>)
 PlainOwnLine == Plain => /\ OnlyPlain(last.ops)
-                         /\ Screen(term) = Visible(FoldAll(cfg.pre \o plog, cfg.w))
+                         /\ NonBlank(Screen(term)) = NonBlank(Visible(FoldAll(cfg.pre \o plog, cfg.w)))
 QuietNothing == Quiet => last.ops = <<>>
 
 \* how the P-state follows a call that wrote the frames fs
@@ -221,14 +226,14 @@ Ops == {"start", "advance", "set", "display", "clear", "finish"}
 
 Event(op, arg, dt, gap, r, b) ==
   [op |-> op, arg |-> arg, dt |-> dt, gap |-> gap, frames |-> r.frames, ops |-> r.ops, exc |-> "",
-   progress |-> b.step, maxsteps |-> b.max, msg |-> b.msg]
+   progress |-> b.step, maxsteps |-> b.max, msg |-> b.msg, pprog |-> last.progress, pmax |-> last.maxsteps]
 
 InitWith(c) ==                                               \* c.max0: the maximum given to the constructor
   /\ cfg = c /\ bar = NewBar(c.max0, c.maxgap) /\ sec = [content |-> <<>>, lines |-> 0]
   /\ term = ApplyOps(TermNew(c.w), LinesOps(c.pre))
   /\ shown = NoFrame /\ sinceAdv = -1 /\ plog = <<>>
   /\ last = [op |-> "new", arg |-> c.max0, dt |-> 0, gap |-> -1, frames |-> <<>>, ops |-> <<>>, exc |-> "",
-             progress |-> 0, maxsteps |-> c.max0, msg |-> <<"m">>]
+             progress |-> 0, maxsteps |-> c.max0, msg |-> <<"m">>, pprog |-> 0, pmax |-> c.max0]
 
 \* after dt ticks the program calls op(arg)
 Call(dt, op, arg) ==
@@ -245,7 +250,7 @@ Call(dt, op, arg) ==
 
 SetMessage(m) == /\ bar' = [bar EXCEPT !.msg = m]
                  /\ last' = [last EXCEPT !.op = "msg", !.arg = Len(m), !.dt = 0, !.gap = -1, !.frames = <<>>,
-                                         !.ops = <<>>, !.msg = m]
+                                         !.ops = <<>>, !.msg = m, !.pprog = last.progress, !.pmax = last.maxsteps]
                  /\ UNCHANGED <<cfg, sec, term, shown, sinceAdv, plog>>
 
 TermOK == WellFormed(term)
